@@ -333,6 +333,6 @@ Outcome encoder_nest_impl(int ckind, size_t depth, const Opt& opt, bool root_obj
 }
 
 const FormatApi& json_api(); const FormatApi& csv_api(); const FormatApi& cbor_api();
-const FormatApi& msgpack_api(); const FormatApi& ubjson_api(); const FormatApi& bson_api();
+const FormatApi& msgpack_api(); const FormatApi& ubjson_api(); const FormatApi& bson_api(); const FormatApi& toon_api();
 
 } // namespace iosim
